@@ -1,6 +1,7 @@
 /- a burst of file creations / writes / attribute changes / file removals, read in ONE batch after the last of them,
    delivers exactly what the same operations deliver when each is drained before the next -/
 import WD.Model.PipelineBurst
+import WD.Proofs.Pipeline.Departed
 import WD.Proofs.Pipeline.Run
 set_option linter.unusedSimpArgs false
 namespace WD.Pipe
@@ -161,7 +162,7 @@ theorem burst_simple (s : Sys) (ops : List Op) (inv : InvRec s.fs s.k s.lib) (hs
       obtain ⟨r, hr1, rfl⟩ := List.mem_map.mp he
       exact hns fsN r hr1
   unfold Sys.burst
-  simp only [hk, hs, hc, Bool.or_self, Bool.false_eq_true, if_false, hl, hem, hmo, forgetAll_nil, hrun]
+  simp only [hk, hs, hc, Bool.or_self, Bool.false_eq_true, if_false, hl, hem, departed_nil _ hmo, forgetAll_nil, hrun]
   simp [forgetAll_nil, hs]
 
 end WD.Pipe
